@@ -80,6 +80,10 @@ class SimSession : public StorageReflectSession
 public:
    SimSession(ServerSim * sim, int connIdx) : _sim(sim), _connIdx(connIdx) {}
    virtual DataIORef CreateDataIO(const ConstSocketRef & s);
+   // fault: a session whose own start-up step fails AFTER the library's part of attaching (node created, subscribers told) has succeeded -- as a subclass whose worker
+   // thread cannot be launched would; the server refuses the session and must take back everything the half-attached session had put into the tree
+   virtual status_t AttachedToServer() {MRETURN_ON_ERROR(StorageReflectSession::AttachedToServer()); if (_failAttach) return B_ERROR("simulated: the session's own start-up step failed"); return B_NO_ERROR;}
+   bool _failAttach = false; SimStream _ghIn, _ghOut;
    virtual String GenerateHostName(const IPAddress &, const String &) const;
    virtual void MessageReceivedFromGateway(const MessageRef & msg, void * ud);
    DataNode & Root() const {return GetGlobalRoot();}
@@ -122,6 +126,7 @@ public:
    std::vector<std::string> departedRoots;    // roots of sessions that have left (must never reappear)
    int hostileConn = -1; int witnessConn = -1; int witnessPingTag = 0; int64_t witnessPingSentAtStep = -1; int witnessOutstanding = -1;
    bool inQuiesce = false;
+   uint64_t stallUs = 0;   // output stall limit of every server-side transport (0 = none)
    bool floodNoop = false;
    std::set<std::string> dontCare;   // paths last written or removed QUIETLY: subscribers were deliberately not told, so mirrors may differ there until the next loud write
    bool skipReplicaCompare = false;   // C13 runs that remove indexed children QUIETLY: replicas legitimately go stale, only the server-side index invariants are checked
@@ -185,6 +190,21 @@ public:
       if (orc.marks) CheckMarks("after session arrival");
    }
    std::vector<std::unique_ptr<Conn> > retired;
+   // a connection whose session fails to start up (see SimSession::AttachedToServer): the server must refuse it and leave no trace of it
+   void GhostConnect()
+   {
+      const int fd = eventfd(0, 0); if (fd < 0) Fail("harness", "eventfd failed");
+      {
+         SimSession * ss = new SimSession(this, -1); ss->_failAttach = true; AbstractReflectSessionRef ref(ss);
+         const status_t r = server->AddNewSession(ref, ConstSocketRef(new Socket(fd, false)));
+         th.s("ghost"); th.u(r.IsOK() ? 1 : 0); st.inc("f.session_startup_failure");
+         if (r.IsOK()) Fail("harness", "a session whose AttachedToServer() failed was accepted");
+      }
+      close(fd);
+      SimSession * s = AnySess(); if (s == NULL) return;
+      if (orc.isolation) WalkTree(s->Root(), [&](DataNode & n, const std::string & p) {(void) n; if ((p == "/gh")||(p.compare(0, 4, "/gh/") == 0)) Fail("refused_session_subtree_remains", "a connection's session failed to start up and was refused by the server, but node " + p + " (created while it attached) is still in the tree");});
+      if (orc.marks) CheckMarks("after a refused session");
+   }
 
    // client c queues one command and writes as much as the (possibly cut) stream takes
    void SendMsg(Conn * c, const MessageRef & m)
@@ -680,6 +700,37 @@ public:
       }
       return false;
    }
+   // A slow link: for (rounds) server iterations connection ci accepts only (chunk) bytes in every other write call (the calls in between would block) while the clock moves on by a
+   // third of the stall limit per iteration -- the backlog lasts for several stall limits, yet its bytes never stop moving for as long as one.  Everyone else is served at full
+   // speed.  Followed by an ordinary quiescent point.  (Only in runs that have a stall limit.)
+   void SlowQuiesce(int ci, uint32_t chunk, int rounds)
+   {
+      Conn * c = UpC(ci);
+      if ((c)&&(stallUs >= 3)&&(c->c2s.floodUnit == NULL))
+      {
+         struct Saved {bool noread, stalled; uint64_t cap; std::vector<uint32_t> r, w;}; std::vector<Saved> saved;
+         for (auto & cp : conns)
+         {
+            Saved s; s.noread = s.stalled = false; s.cap = (uint64_t)-1;
+            if (cp) {s.noread = cp->noread; s.stalled = cp->stalled; s.cap = cp->s2c.capacity; s.r = cp->c2s.rsched; s.w = cp->s2c.wsched; cp->noread = cp->stalled = false; cp->s2c.capacity = (uint64_t)-1; cp->c2s.rsched.clear(); cp->s2c.wsched.clear();}
+            saved.push_back(s);
+         }
+         std::vector<uint32_t> slow; slow.push_back(std::max<uint32_t>(1, std::min<uint32_t>(chunk, 4096))); slow.push_back(0);
+         c->s2c.SetSched(true, slow);
+         uint64_t moved = c->s2c.totalWritten; int movingRounds = 0;
+         for (int r=0; (r<rounds)&&(r<200)&&(c->up); r++)
+         {
+            ServerStep();
+            for (auto & cp : conns) if ((cp)&&(cp->gw.get())) {if ((cp->up)&&(cp->gw->HasBytesToOutput())) (void) cp->gw->DoOutput(); ClientRead(cp.get());}
+            if (c->s2c.totalWritten > moved) {moved = c->s2c.totalWritten; movingRounds++;}
+            g_simNowUs += stallUs/3;
+         }
+         if (movingRounds >= 6) st.inc("p.backlog_outlasted_stall_limit_while_moving");
+         st.inc("f.slow_link_rounds", (uint64_t) movingRounds);
+         for (size_t i=0; (i<conns.size())&&(i<saved.size()); i++) if (conns[i]) {conns[i]->noread = saved[i].noread; conns[i]->stalled = saved[i].stalled; conns[i]->s2c.capacity = saved[i].cap; conns[i]->c2s.rsched = saved[i].r; conns[i]->s2c.wsched = saved[i].w;}
+      }
+      Quiesce("slow quiesce op");
+   }
    // faults suspended; step until no actor has work; bounded
    void Quiesce(const char * why)
    {
@@ -821,8 +872,8 @@ public:
 };
 ServerSim * ServerSim::s_cur = NULL;
 
-inline DataIORef SimSession::CreateDataIO(const ConstSocketRef & s) {Conn * c = _sim->C(_connIdx); return DataIORef(new SimDataIO(&c->c2s, &c->s2c, s));}
-inline String SimSession::GenerateHostName(const IPAddress &, const String &) const {Conn * c = _sim->C(_connIdx); return String(c ? c->host.c_str() : "hx");}
+inline DataIORef SimSession::CreateDataIO(const ConstSocketRef & s) {if (_connIdx < 0) return DataIORef(new SimDataIO(&_ghIn, &_ghOut, s)); Conn * c = _sim->C(_connIdx); SimDataIO * io = new SimDataIO(&c->c2s, &c->s2c, s); if (_sim->stallUs) io->_stallLimit = _sim->stallUs; return DataIORef(io);}
+inline String SimSession::GenerateHostName(const IPAddress &, const String &) const {Conn * c = _sim->C(_connIdx); return String(c ? c->host.c_str() : "gh");}
 inline void SimSession::MessageReceivedFromGateway(const MessageRef & msg, void * ud)
 {
    _sim->OnCommandBegin(_connIdx, msg);
